@@ -29,6 +29,19 @@ theorem get_days_floor {ts : List Int} {filt : Option (List Int)} {start end_ : 
 
 example : getDays [172805, 5, 518405] (some [0, 0, 2]) none none = .ok ⟨[-4, -6, 0], some [false, false, true]⟩ := by rfl
 
+/-- `origin_is_min_unfiltered`, spelled out: without a `start_date` the origin is a timestamp of a row that passes the filter,
+    no row passing the filter is earlier, and the day numbers are `⌊(t − o)/86400⌋`. -/
+theorem origin_is_min_unfiltered {ts : List Int} {filt : Option (List Int)} {end_ : Option Int} {out : DaysOut}
+    (h : getDays ts filt none end_ = .ok out) :
+    ∃ o, (∃ i : Nat, ts[i]? = some o ∧ passes filt i = true) ∧
+      (∀ (i : Nat) (t : Int), ts[i]? = some t → passes filt i = true → o ≤ t) ∧
+      out.days = ts.map (fun t => (t - o) / 86400) := by
+  obtain ⟨o, ho, hd, _, _⟩ := getDays_spec h
+  exact ⟨o, ho.1, ho.2, by rw [hd]; rfl⟩
+
+example : getDays [172805, 5, 518405] (some [1, 0, 1]) none (some 200000) = .ok ⟨[0, -2, 4], some [true, false, false]⟩ := by
+  rfl
+
 /-- the day number is unique: `IsDayOf o t` determines `d`. -/
 theorem day_unique {o t d d' : Int} (h : IsDayOf o t d) (h' : IsDayOf o t d') : d = d' := isDayOf_unique h h'
 
